@@ -226,6 +226,26 @@ impl Session {
                 self.p()?.remove_stream(&n)
             }
             "RemoveSignature" => self.p()?.remove_digital_signature(),
+            "ReadStream" => {
+                let n = from_cps(&a["name"]);
+                let mut rd = self.p()?.read_stream(&n)?;
+                let mut b = Vec::new();
+                rd.read_to_end(&mut b)?;
+                Ok(())
+            }
+            "AddSignature" => {
+                // a signing tool adds the stream to the closed file, with the container library only
+                let bytes = self.med.snap();
+                let mut comp = cfb::CompoundFile::open(std::io::Cursor::new(bytes))?;
+                {
+                    let mut st = comp.create_stream("\u{5}DigitalSignature")?;
+                    st.write_all(b"sig")?;
+                    st.flush()?;
+                }
+                comp.flush()?;
+                self.med = Medium::new(comp.into_inner().into_inner());
+                Ok(())
+            }
             "Flush" => self.p()?.flush(),
             "IntoInner" => {
                 let p = self.pkg.take().ok_or_else(|| std::io::Error::new(std::io::ErrorKind::Other, "no package"))?;
@@ -323,6 +343,7 @@ impl Session {
             "ptype": ptype_str(p.package_type()),
             "cp": p.database_codepage().id(),
             "summary": summary_json(p),
+            "sig": p.has_digital_signature(),
             "streams": streams,
             "tables": tables,
         })))
